@@ -175,6 +175,12 @@ def gen(seed, tier):
                     out.append(f"det {arr([n, n], flat(m))}")
                 if kind in ("random", "dominant") and n <= 5:
                     out.append(f"qr {arr([n, n], flat(m))}")
+    # entry checks: rank of a, squareness, extents below 2, row count of the right-hand side
+    for a_, b_ in [("a1:0", "a1:0"), ("a3:1,2,3", "a3:1,2,3"), ("a1x1:5", "a1:5"), ("a2x3:1,2,3,4,5,6", "a2:1,2"),
+                   ("a3x2:1,2,3,4,5,6", "a3:1,2,3"), ("a2x2:1,2,3,5", "a3:1,2,3"), ("a2x2:1,2,3,5", "a1:1"),
+                   ("a2x2x2:1,0,0,1,1,0,0,1", "a2:1,2"), ("a2x2:1,2,3,5", "a3x2:1,2,3,4,5,6"), ("a1x2:1,2", "a1:1"),
+                   ("a2x1:1,2", "a2:1,2")]:
+        out.append(f"solve {a_} {b_}")
     out.append("solve a2x2:0,1,1,0 a2:2,3")
     out.append("solve a3x3:2,1,1,4,3,3,8,7,9 a3x2:1,0,2,1,3,5")
     for _ in range(5):
